@@ -6,7 +6,7 @@ from .. import frame as FR, rules_g as G, paramalg as pa, rules_k as K
 from .C05 import check_kdf
 
 R = 'rand#1(SM9_N_MINUS_ONE)'
-KLEN = '(AddWithOverflow(255, 32).0 as usize)'
+KLEN = '287'
 
 
 def unloop(s):
@@ -73,9 +73,9 @@ def run(cx):
     else:
         cx.lost('F-SM9-KDFIN', 'decrypt', 'expected one kdf call', fn.loc())
     if Kx:
-        mlen = 'SubWithOverflow(len($data), AddWithOverflow(65, 32).0).0'
-        c2 = 'index($data, RangeFrom::RangeFrom{AddWithOverflow(65, 32).0})'
-        c3 = 'index($data, Range::Range{65, AddWithOverflow(65, 32).0})'
+        mlen = 'SubWithOverflow(len($data), 97).0'
+        c2 = 'index($data, RangeFrom::RangeFrom{97})'
+        c3 = 'index($data, Range::Range{65, 97})'
         u = 'sm3_hmac(index(%s, RangeFrom::RangeFrom{%s}), %s, 32)' % (Kx, mlen, c2)
 
         def mmac(p):
